@@ -65,7 +65,7 @@ func (f *Subtract) Call(s *slip.Scope, args slip.List, depth int) (dif slip.Obje
 				case *slip.LongFloat:
 					dif = (*slip.LongFloat)(new(big.Float).Neg((*big.Float)(td)))
 				case *slip.Bignum:
-					dif = (*slip.Bignum)(new(big.Int).Neg((*big.Int)(td)))
+					dif = reduceInteger(new(big.Int).Neg((*big.Int)(td)))
 				case *slip.Ratio:
 					dif = (*slip.Ratio)(new(big.Rat).Neg((*big.Rat)(td)))
 				case slip.Complex:
@@ -92,7 +92,7 @@ func (f *Subtract) Call(s *slip.Scope, args slip.List, depth int) (dif slip.Obje
 		case *slip.Bignum:
 			dif = (*slip.Bignum)(new(big.Int).Sub((*big.Int)(dif.(*slip.Bignum)), (*big.Int)(ta)))
 		case *slip.Ratio:
-			dif = (*slip.Ratio)(new(big.Rat).Sub((*big.Rat)(dif.(*slip.Ratio)), (*big.Rat)(ta)))
+			dif = reduceRational(new(big.Rat).Sub((*big.Rat)(dif.(*slip.Ratio)), (*big.Rat)(ta)))
 		case slip.Complex:
 			dif = slip.Complex(complex128(dif.(slip.Complex)) - complex128(ta))
 		}
